@@ -122,6 +122,10 @@ def gen(rng, tier):
         f = lambda v: "-" if v is None else str(v)
         cs.append(Case("dynconf %s %s %s . T2,255,255,%d,%d B%s,-,-,%s,%s" % (b"tmplsecret".hex(), rng.choice([b"bob@example.org", b"a@b.c"]).hex(), block.hex(),
                                                                         tcn, tnc, "2" if b"type" in block else "-", f(bcn), f(bnc)), kind="dynconf-certflags", valid=1))
+    # the certificate conditions applied where they are applied for real: by tlsservernew, to the blocks that list the peer, in order
+    import tlsgen
+    for _ in range(150 if tier == "quick" else 4000):
+        cs.append(Case(tlsgen.tlsconn_line(rng), kind="tlsconn", nsan=1))
     return cs
 
 
